@@ -22,13 +22,13 @@ int fft_cache_capacity();
 using namespace vf;
 using namespace dsplib;
 
-enum Kind { FFT_C, FFT_R, IFFT, IRFFT, HOLD_C, HOLD_R, HOLD_I, USE };
+enum Kind { FFT_C, FFT_R, IFFT, IRFFT, HOLD_C, HOLD_R, HOLD_I, USE, BAD_C };
 struct Req {
     Kind kind;
     int n;   // length; for USE: index of the held plan (mod number held)
 };
 static std::string rname(const Req& r) {
-    static const char* k[] = {"fft", "rfft", "ifft", "irfft", "holdC", "holdR", "holdI", "use"};
+    static const char* k[] = {"fft", "rfft", "ifft", "irfft", "holdC", "holdR", "holdI", "use", "fftplan-wrong-length"};
     return std::string(k[r.kind]) + std::to_string(r.n);
 }
 
@@ -62,9 +62,24 @@ struct Held {
     std::shared_ptr<IfftPlan> i;
 };
 
-// executes one request in the calling thread; `held` is the thread's list of long-lived plans
+static Out exec_raw(const Req& q, std::vector<Held>& held);
+static bool is_thrown(const Out& o) { return o.size() == 1 && o[0] == -7.25e300; }
+// executes one request in the calling thread; `held` is the thread's list of long-lived plans.
+// A request that is rejected with a C++ exception (odd irfft length, plan applied to another length) is a legitimate
+// part of a history: its "result" is the marker {-7.25e300}; what follows must be unaffected by it.
 static Out exec(const Req& q, std::vector<Held>& held) {
+    try {
+        return exec_raw(q, held);
+    } catch (const std::exception&) {
+        return Out{-7.25e300};
+    }
+}
+static Out exec_raw(const Req& q, std::vector<Held>& held) {
     switch (q.kind) {
+    case BAD_C: {
+        FftPlan p(q.n);
+        return flat(p.solve(cin(q.n + 1, 18)));
+    }
     case FFT_C: return flat(fft(cin(q.n, 11)));
     case FFT_R: return flat(rfft(rin(q.n, 12)));
     case IFFT: return flat(ifft(cin(q.n, 13)));
@@ -143,6 +158,7 @@ static int primary_key(const Req& q, bool real_cache) {
     case FFT_C:
     case IFFT:
     case HOLD_C:
+    case BAD_C:
     case HOLD_I: return real_cache ? 0 : q.n;
     case IRFFT: return real_cache ? 0 : q.n / 2;
     case FFT_R:
@@ -195,8 +211,9 @@ static SeqResult run_seq(const std::vector<Req>& seq, const std::vector<Out>& fr
                     res.site = "result";
                 }
                 int nreq = q.kind == USE ? 1 << 20 : q.n;
-                std::string e1 = lru_check(Bc, Ac, K, primary_key(q, false), nreq);
-                std::string e2 = lru_check(Br, Ar, K, primary_key(q, true), nreq);
+                const bool thrown = is_thrown(o);   // a rejected request need not have cached its plan
+                std::string e1 = lru_check(Bc, Ac, K, thrown ? 0 : primary_key(q, false), nreq);
+                std::string e2 = lru_check(Br, Ar, K, thrown ? 0 : primary_key(q, true), nreq);
                 if ((!e1.empty() || !e2.empty()) && res.err.empty()) {
                     res.err = fmt("step %zu (%s): %s cache: %s; before %s / after %s", s, rname(q).c_str(), e1.empty() ? "real" : "complex",
                                   (e1.empty() ? e2 : e1).c_str(), show(e1.empty() ? Br : Bc).c_str(), show(e1.empty() ? Ar : Ac).c_str());
@@ -230,6 +247,7 @@ int main(int argc, char** argv) {
         {"A", {{FFT_C, 16}, {FFT_C, 12}, {FFT_C, 7}, {FFT_C, 60}, {FFT_C, 53}, {FFT_C, 9}}},
         {"B", {{FFT_R, 16}, {FFT_R, 12}, {FFT_R, 7}, {FFT_R, 60}, {FFT_R, 53}, {FFT_R, 30}}},
         {"C", {{FFT_C, 12}, {FFT_R, 12}, {IFFT, 10}, {IRFFT, 12}, {FFT_C, 53}, {FFT_R, 15}}},
+        {"E", {{IRFFT, 12}, {IRFFT, 13}, {IRFFT, 14}, {BAD_C, 12}, {FFT_C, 12}, {FFT_R, 14}}},
         {"D", {{FFT_C, 12}, {FFT_C, 60}, {FFT_C, 53}, {FFT_R, 30}, {HOLD_C, 60}, {HOLD_R, 30}, {HOLD_I, 12}, {HOLD_C, 53}, {USE, 0}, {USE, 1}}},
     };
 
